@@ -1,3 +1,8 @@
+/-
+  Predicates used as hypotheses of the C05 theorem `full_implies_modellable_partial`:
+  two gaps of `Coverage` (shapes of `x = op e` it accepts but the calculus reading rejects)
+  and one well-formedness condition on trees.  All are decidable and recursive (`stmtAll`).
+-/
 import Mwp.Spec.Syntax
 namespace Mwp
 open Mwp Mwp.Syntax
@@ -38,11 +43,6 @@ def noNestedUnaryAt (n : Node) : Bool :=
   | some (_, e) => !e.isUnop
   | none => true
 
-def noUnaryOfCastExprAt (n : Node) : Bool :=
-  match rhsUnop? n with
-  | some (op, e) => op == "!" || op == "sizeof" || e.isId || e.isConst || e.isUnop
-  | none => true
-
 def noIncDecOfConstAt (n : Node) : Bool :=
   match rhsUnop? n with
   | some (op, e) => !(Gen.incDec.contains op && e.isConst)
@@ -56,8 +56,6 @@ def stmtCtor : Node → Bool
 
 /-- known gap: no `x = op₁ op₂ e` (casts in between allowed) -/
 def NoNestedUnary (n : Node) : Prop := stmtAll noNestedUnaryAt n = true
-/-- gap: no `x = op (T)(e)` with `op` not `!`/`sizeof` and `e` not an identifier or constant -/
-def NoUnaryOfCastExpr (n : Node) : Prop := stmtAll noUnaryOfCastExprAt n = true
 /-- gap (not valid C, but pycparser parses it): no `x = ++c` / `x = c--` ... on a constant -/
 def NoIncDecOfConst (n : Node) : Prop := stmtAll noIncDecOfConstAt n = true
 /-- well-formedness: positions of statements hold statements or expressions -/
@@ -66,7 +64,6 @@ def StmtShaped : Node → Prop
   | _ => False
 
 instance (n : Node) : Decidable (NoNestedUnary n) := by unfold NoNestedUnary; infer_instance
-instance (n : Node) : Decidable (NoUnaryOfCastExpr n) := by unfold NoUnaryOfCastExpr; infer_instance
 instance (n : Node) : Decidable (NoIncDecOfConst n) := by unfold NoIncDecOfConst; infer_instance
 instance (n : Node) : Decidable (StmtShaped n) := by
   cases n <;> unfold StmtShaped <;> infer_instance
